@@ -16,20 +16,25 @@ import (
 	"github.com/jech/storrent/protocol"
 
 	"verifharness/internal/cq"
+	"verifharness/internal/wm"
 )
 
 // mspec is a JSON-serialisable description of one message (for replay).
 type mspec struct {
-	T              string           `json:"t"`
-	Sub            uint8            `json:"sub,omitempty"`
-	A, B, C        uint32           `json:"a,omitempty"`
-	Data           string           `json:"data,omitempty"` // encodeInput form
-	Ver            string           `json:"ver,omitempty"`
-	IP4            string           `json:"ip4,omitempty"`
-	IP6            string           `json:"ip6,omitempty"`
-	Msgs           map[string]uint8 `json:"msgs,omitempty"`
-	UO, Enc        bool             `json:"uo,omitempty"`
-	Added, Dropped []pspec          `json:"added,omitempty"`
+	T       string           `json:"t"`
+	Sub     uint8            `json:"sub,omitempty"`
+	A       uint32           `json:"a,omitempty"`
+	B       uint32           `json:"b,omitempty"`
+	C       uint32           `json:"c,omitempty"`
+	Data    string           `json:"data,omitempty"` // encodeInput form
+	Ver     string           `json:"ver,omitempty"`
+	IP4     string           `json:"ip4,omitempty"`
+	IP6     string           `json:"ip6,omitempty"`
+	Msgs    map[string]uint8 `json:"msgs,omitempty"`
+	UO      bool             `json:"uo,omitempty"`
+	Enc     bool             `json:"enc,omitempty"`
+	Added   []pspec          `json:"added,omitempty"`
+	Dropped []pspec          `json:"dropped,omitempty"`
 }
 type pspec struct {
 	Addr  string `json:"addr"`
@@ -222,7 +227,7 @@ func runC06(c *scase) (coq string, distinctKey string, nontrivial bool) {
 	nt := false
 	for _, s := range c.Msgs {
 		m := s.build()
-		rs, cl := renderMsg(s.build())
+		rs, cl := wm.Render(s.build())
 		rendered = append(rendered, rs)
 		key = append(key, cl)
 		if s.Data != "" || s.A != 0 || s.Ver != "" || len(s.Added) > 0 || len(s.Dropped) > 0 || len(s.Msgs) > 0 {
@@ -247,7 +252,7 @@ func runC06(c *scase) (coq string, distinctKey string, nontrivial bool) {
 			clean = false
 			break
 		}
-		rs, _ := renderMsg(m)
+		rs, _ := wm.Render(m)
 		read = append(read, rs)
 	}
 	c.Obs = fmt.Sprintf("written=%d bytes read=%d msgs clean=%v", len(written), len(read), clean)
